@@ -3,8 +3,8 @@ import Blots.Model.Pratt
 import Blots.Model.NumText
 import Blots.Gen.Builtins
 /-
-  Character-level PEG model of the `expression` rule of `grammar.pest` for the OPERATOR
-  FRAGMENT (C10: precedence / layout / redundant parentheses at the level of TEXT).
+  Character-level PEG model of the `expression` rule of `grammar.pest` for a FRAGMENT
+  (C10: precedence / layout / redundant parentheses at the level of TEXT).
 
   The rules followed (texts pinned by the translator, `tools/gen_tables.py` `PINNED_RULES`;
   the alternatives of `infix_op` / `natural_infix_op` and the literal of every operator rule
@@ -20,28 +20,61 @@ import Blots.Gen.Builtins
       natural_prefix_op = _{ natural_not }
       prefix_usage      = _{ natural_prefix_op ~ WHITESPACE+ | prefix_op }
       postfix_op        = _{ factorial | access | call_list | dot_access }
+      access            =  { "[" ~ NEWLINE* ~ expression ~ NEWLINE* ~ "]" }
+      dot_access        =  { "." ~ identifier }
+      call_list         = !{ "(" ~ NEWLINE* ~ (spreadable_expression ~ ("," ~ NEWLINE* ~
+                             spreadable_expression)*)? ~ ("," ~ NEWLINE)? ~ NEWLINE* ~ ")" }
+      spread_operator       =  { "..." }
+      spread_expression     = ${ spread_operator ~ expression }
+      spreadable_expression = _{ spread_expression | expression }
       expression        = ${ prefix_usage* ~ term ~ postfix_op*
                              ~ (infix_usage ~ prefix_usage* ~ term ~ postfix_op*)* }
       nested_expression = _{ "(" ~ (WHITESPACE | NEWLINE)* ~ expression ~ (WHITESPACE | NEWLINE)* ~ ")" }
       term              = _{ conditional | do_block | lambda | assignment | list | record | bool
                            | string | null | input_reference | identifier | number | nested_expression }
+      comment           = @{ "//" ~ (!plain_newline ~ ANY)* }           (eol_comment: the same)
+      list_item         =  { spreadable_expression ~ (WHITESPACE* ~ eol_comment)? }
+      list              = !{ "[]" | "[" ~ (comment ~ (WHITESPACE | plain_newline)+ | WHITESPACE
+                             | plain_newline)* ~ (list_item ~ ("," ~ (comment ~ (WHITESPACE |
+                             plain_newline)+ | WHITESPACE | plain_newline)* ~ list_item)*)? ~
+                             ("," ~ (WHITESPACE | plain_newline)*)? ~ (comment ~ (WHITESPACE |
+                             plain_newline)* | WHITESPACE | plain_newline)* ~ "]" }
 
-  `expression` is compound-atomic (`$`): NO implicit whitespace between its parts, layout
-  is consumed only where `infix_usage`, `prefix_usage` and `nested_expression` say so.
+      conditional       = ${ "if" ~ WHITESPACE+ ~ expression ~ (WHITESPACE | NEWLINE)+ ~ "then" ~
+                             (WHITESPACE | NEWLINE)+ ~ expression ~ (WHITESPACE | NEWLINE)+ ~ "else" ~
+                             (WHITESPACE | NEWLINE)+ ~ expression }
+      lambda            = ${ argument_list ~ WHITESPACE* ~ "=>" ~ (WHITESPACE | NEWLINE)* ~ lambda_expression }
+      lambda_expression = ${ prefix_usage* ~ lambda_term ~ postfix_op*
+                             ~ (lambda_infix_usage ~ prefix_usage* ~ lambda_term ~ postfix_op*)* }
+      lambda_term       = _{ …the alternatives of `term`… }
+      lambda_infix_usage = _{ (WHITESPACE | NEWLINE)+ ~ lambda_natural_infix_op ~ WHITESPACE+
+                            | (WHITESPACE | NEWLINE)* ~ infix_op ~ (WHITESPACE | NEWLINE)* }
+      lambda_natural_infix_op = _{ natural_and | natural_or }
+      argument_list     = !{ argument | "(" ~ NEWLINE* ~ (argument ~ ("," ~ NEWLINE* ~ argument)*)?
+                             ~ ("," ~ NEWLINE)? ~ NEWLINE* ~ ")" }
+      argument          = _{ optional_arg | required_arg | rest_arg }
+      required_arg = { identifier }   optional_arg = { identifier ~ "?" }   rest_arg = { "..." ~ identifier }
+
+  ATOMICITY.  `expression` is compound-atomic (`$`): NO implicit whitespace between its parts,
+  layout is consumed only where `infix_usage`, `prefix_usage` and `nested_expression` say so.
+  `access` and `dot_access` are normal rules: they inherit the atomicity of the `expression`
+  they are reached from — inside `[ ]` only `NEWLINE*` (line breaks, with their comments) is
+  layout, NOT blanks; nothing around the `.`.  `call_list`, `list` and `argument_list` are non-atomic (`!`): pest inserts
+  `skip` = `WHITESPACE*` between the parts of every sequence and repetition of the rule (and
+  of the silent rules `NEWLINE`, `inline_comment` it reaches; the grammar has no `COMMENT`
+  rule); inside an argument the `$` rules `expression` / `spread_expression` are atomic again.
   PEG semantics as in `Model/Ident.lean`: ordered choice commits to the first alternative
   that matches, repetitions are greedy and never give characters back; a failed alternative
   restores the position.
 
   THE FRAGMENT.  Of `term` the alternatives modelled are, in grammar order,
-      bool | null | identifier | number | nested_expression
+      conditional | lambda | list | bool | null | identifier | number | nested_expression
   with `number` restricted to the subset ASCII_DIGIT+ of `decimal_number` (no sign, no `_`
-  groups, no fraction, no exponent, no `0b` / `0x` form); of `postfix_op` only `factorial`.
+  groups, no fraction, no exponent, no `0b` / `0x` form); `postfix_op` completely.
   The model answers what pest answers on every text on which the alternatives left out cannot
-  match at any term / postfix position it reaches:
-    * conditional / do_block need `if` / `do` followed by whitespace, string a quote, list
-      `[`, record `{`, input_reference `#`; lambda needs `=>` after an argument list,
-      assignment `=` (not `==`) after an identifier; access `[`, call_list `(` directly after
-      a term, dot_access `.` followed by an identifier;
+  match at any term position it reaches:
+    * do_block needs `do` followed by whitespace, string a quote,
+      record `{`, input_reference `#`; assignment `=` (not `==` / `=>`) after an identifier;
     * a digit run followed by `_`digit, `.`digit, `e`/`E`[sign]digit, or starting `0b` / `0x`,
       or a sign directly in front of a digit where a term is expected (`+1`), is a longer
       `number` for pest.
@@ -51,7 +84,8 @@ import Blots.Gen.Builtins
   OUTPUT: the flat item sequence pest hands to the Pratt parser, as the harness builds it from
   the real pairs (`fmtcommon.rs::pitems`): operators by rule name, a term converted to its
   tree — for a `nested_expression` by the recursive `pairs_to_expr` call, here `prattParse`
-  on the inner items.
+  on the inner items; `access` with its converted index, `call_list` with its converted
+  arguments (`...e` ↦ `Spread e`), `dot_access` with the field name.
 -/
 namespace Blots.ExprPeg
 open Blots.Ident
@@ -127,17 +161,21 @@ def infixLits : List (String × List Char) := litTable Gen.infixOrder
 def naturalLits : List (String × List Char) := litTable Gen.naturalOrder
 /-- `prefix_op = _{ negation | invert }` -/
 def prefixLits : List (String × List Char) := litTable ["negation", "invert"]
+/-- `lambda_natural_infix_op = _{ natural_and | natural_or }` -/
+def lamNaturalLits : List (String × List Char) := litTable ["natural_and", "natural_or"]
 /-- `natural_prefix_op = _{ natural_not }` -/
 def naturalPrefixLits : List (String × List Char) := litTable ["natural_not"]
-/-- `postfix_op` restricted to `factorial` -/
+/-- the literal alternative of `postfix_op`: `factorial` -/
 def postfixLits : List (String × List Char) := litTable ["factorial"]
 
-/-- `infix_usage`: the matched operator rule and the rest -/
-def infixUsage (cs : List Char) : Option (String × List Char) :=
+/-- `infix_usage` (`lam = false`) / `lambda_infix_usage` (`lam = true`: the same with
+    `lambda_natural_infix_op` — no `via` / `into` / `where` at the top level of a lambda body):
+    the matched operator rule and the rest -/
+def infixUsage (lam : Bool) (cs : List Char) : Option (String × List Char) :=
   let alt1 : Option (String × List Char) :=
     match layoutPlus cs with
     | some r =>
-      (match firstRule naturalLits r with
+      (match firstRule (if lam then lamNaturalLits else naturalLits) r with
        | some (rule, r1) => (wsPlus r1).map fun r2 => (rule, r2)
        | none => none)
     | none => none
@@ -158,10 +196,6 @@ def prefixUsage (cs : List Char) : Option (PItem × List Char) :=
   | some (rule, r) => some (.pre rule, r)
   | none => (firstRule prefixLits cs).map fun x => (.pre x.1, x.2)
 
-/-- `postfix_op`, fragment: `factorial` only -/
-def postfixOp (cs : List Char) : Option (PItem × List Char) :=
-  (firstRule postfixLits cs).map fun x => (.postFact, x.2)
-
 /-- greedy `e*` collecting items; `fuel` bounds the iterations -/
 def starItems (e : List Char → Option (PItem × List Char)) : Nat → List Char → List PItem × List Char
   | 0, cs => ([], cs)
@@ -172,8 +206,6 @@ def starItems (e : List Char → Option (PItem × List Char)) : Nat → List Cha
 
 /-- `prefix_usage*` -/
 def prefixStar (cs : List Char) : List PItem × List Char := starItems prefixUsage (cs.length + 1) cs
-/-- `postfix_op*` -/
-def postfixStar (cs : List Char) : List PItem × List Char := starItems postfixOp (cs.length + 1) cs
 
 /-! ### terms -/
 
@@ -207,16 +239,177 @@ def termAtom (cs : List Char) : Option (Expr × List Char) :=
         | some r => (NumText.literalValue (String.ofList (consumed cs r))).map fun x => (.num x, r)
         | none => none
 
+/-! ### layout inside `access` and `call_list` -/
+
+/-- the implicit `skip` between the parts of a NON-ATOMIC rule (`!{ … }`): `WHITESPACE*`
+    (the grammar defines no `COMMENT` rule) -/
+def skipWs (cs : List Char) : List Char := cs.dropWhile isWs
+
+/-- `NEWLINE*` in an atomic context (`access` is a normal rule reached from the compound-atomic
+    `expression`, so it is atomic: line breaks, with their comments, but NO blanks) -/
+def nlStar (cs : List Char) : List Char := star newline (cs.length + 1) cs
+
+/-- `spread_operator = { "..." }` -/
+def spreadLit : List Char := (ruleLit "spread_operator").getD []
+
+/-- `("," ~ skip ~ NEWLINE)?` : a trailing comma counts only when a line break follows it -/
+def trailComma (cs : List Char) : List Char :=
+  match cs with
+  | ',' :: r => (match newline (skipWs r) with | some r' => r' | none => cs)
+  | _ => cs
+
+/-- the end of `call_list`, after the last argument (or after `"(" ~ NEWLINE*` when there is
+    none):  `("," ~ NEWLINE)? ~ NEWLINE* ~ ")"` with the implicit skips of the non-atomic rule,
+        skip ~ ("," ~ skip ~ NEWLINE)? ~ skip ~ (NEWLINE ~ (skip ~ NEWLINE)*)? ~ skip ~ ")".
+    Behind a non-blank character the non-atomic NEWLINE (`inline_comment? ~ skip ~
+    plain_newline`) is the atomic one, and `skip ~ (NEWLINE ~ (skip ~ NEWLINE)*)? ~ skip`
+    consumes exactly what `(WHITESPACE | NEWLINE)*` consumes (`layoutStar`).  A trailing comma
+    must be followed by a line break (`f(a, )` is rejected, `f(a,⏎)` is a call). -/
+def callClose (cs : List Char) : Option (List Char) :=
+  match layoutStar (trailComma (skipWs cs)) with
+  | ')' :: r => some r
+  | _ => none
+
+/-! ### layout inside `list` -/
+
+/-- `WHITESPACE | plain_newline` -/
+def wnAtom : List Char → Option (List Char) := orElse whitespace plainNewline
+
+/-- `(WHITESPACE | plain_newline)*` (with the skips of the non-atomic rule: the same) -/
+def wnStar (cs : List Char) : List Char := star wnAtom (cs.length + 1) cs
+
+/-- one step of `(comment ~ (WHITESPACE | plain_newline)+ | WHITESPACE | plain_newline)*`:
+    `comment = @{ "//" ~ (!plain_newline ~ ANY)* }` must be followed by a blank or line break
+    (the rest of the `+` is consumed by the following steps) -/
+def gAtom (cs : List Char) : Option (List Char) :=
+  match inlineComment cs with
+  | some r => wnAtom r
+  | none => wnAtom cs
+
+/-- one step of `(comment ~ (WHITESPACE | plain_newline)* | WHITESPACE | plain_newline)*` -/
+def hAtom (cs : List Char) : Option (List Char) :=
+  match inlineComment cs with
+  | some r => some r
+  | none => wnAtom cs
+
+/-- `skip ~ (comment ~ (WHITESPACE | plain_newline)+ | WHITESPACE | plain_newline)* ~ skip` :
+    the layout behind `[` and behind a comma of a list — blanks, PLAIN line breaks, and
+    comments that are followed by a line break (the comments become `comment` pairs, which the
+    conversion without `preserve_comments` drops) -/
+def gapG (cs : List Char) : List Char := star gAtom (cs.length + 1) cs
+
+/-- the same in front of `]`, where a comment need not be followed by anything -/
+def gapH (cs : List Char) : List Char := star hAtom (cs.length + 1) cs
+
+/-- the end of `list_item = { spreadable_expression ~ (WHITESPACE* ~ eol_comment)? }` inside
+    the non-atomic `list`: `skip`, then optionally a comment up to the end of the line -/
+def itemTrail (cs : List Char) : List Char :=
+  match inlineComment (skipWs cs) with
+  | some r => r
+  | none => skipWs cs
+
+/-- the end of `list`, after the last item (or after the layout behind `[` when there is
+    none):  `("," ~ (WHITESPACE | plain_newline)*)? ~ (comment ~ (WHITESPACE | plain_newline)*
+    | WHITESPACE | plain_newline)* ~ "]"` with the implicit skips.  (Unlike `call_list` a
+    trailing comma needs no line break.) -/
+def listClose (cs : List Char) : Option (List Char) :=
+  match gapH (match skipWs cs with | ',' :: r => wnStar r | c1 => c1) with
+  | ']' :: r => some r
+  | _ => none
+
+/-- the items of a list as `pairs_to_expr` (without `preserve_comments`) builds them -/
+def mkItems (es : List Expr) : List Item := es.map fun e => Item.mk [] e none
+
+/-! ### the head of a lambda -/
+
+/-- `argument = _{ optional_arg | required_arg | rest_arg }` inside the non-atomic
+    `argument_list` (so `x ?` and `... r` with blanks are arguments too):
+      required_arg = { identifier }   optional_arg = { identifier ~ "?" }
+      rest_arg     = { "..." ~ identifier } -/
+def argumentR (cs : List Char) : Option (LArg × List Char) :=
+  match identifier cs with
+  | some r =>
+    (match skipWs r with
+     | '?' :: r' => some (.opt (String.ofList (consumed cs r)), r')
+     | _ => some (.req (String.ofList (consumed cs r)), r))
+  | none =>
+    match lit spreadLit cs with
+    | some r =>
+      (match identifier (skipWs r) with
+       | some r' => some (.rest (String.ofList (consumed (skipWs r) r')), r')
+       | none => none)
+    | none => none
+
+/-- `("," ~ NEWLINE* ~ argument)*` with the skips of the non-atomic rule; an iteration that
+    fails gives its comma back -/
+def argumentsTail : Nat → List Char → List LArg × List Char
+  | 0, cs => ([], cs)
+  | fuel + 1, cs =>
+    match skipWs cs with
+    | ',' :: r =>
+      (match argumentR (layoutStar r) with
+       | some (a, r1) => let p := argumentsTail fuel r1; (a :: p.1, p.2)
+       | none => ([], cs))
+    | _ => ([], cs)
+
+/-- the arguments behind the first one, and the end of the list -/
+def argumentTailClose (a : LArg) (r2 : List Char) : Option (List LArg × List Char) :=
+  (callClose (argumentsTail (r2.length + 1) r2).2).map fun r4 =>
+    (a :: (argumentsTail (r2.length + 1) r2).1, r4)
+
+/-- the parenthesised alternative of `argument_list`, behind its `(` -/
+def argumentListParen (r1 : List Char) : Option (List LArg × List Char) :=
+  match argumentR (layoutStar r1) with
+  | some (a, r2) => argumentTailClose a r2
+  | none => (callClose (layoutStar r1)).map fun r4 => ([], r4)
+
+/-- `argument_list = !{ argument | "(" ~ NEWLINE* ~ (argument ~ ("," ~ NEWLINE* ~ argument)*)?
+    ~ ("," ~ NEWLINE)? ~ NEWLINE* ~ ")" }` : the same layout rules as `call_list` -/
+def argumentList (cs : List Char) : Option (List LArg × List Char) :=
+  match argumentR cs with
+  | some (a, r) => some ([a], r)
+  | none =>
+    match cs with
+    | '(' :: r1 => argumentListParen r1
+    | _ => none
+
+/-- the part of `lambda = ${ argument_list ~ WHITESPACE* ~ "=>" ~ (WHITESPACE | NEWLINE)* ~
+    lambda_expression }` in front of the body: the arguments and where the body starts -/
+def lambdaHead (cs : List Char) : Option (List LArg × List Char) :=
+  match argumentList cs with
+  | some (args, r) => (lit ['=', '>'] (skipWs r)).map fun r' => (args, layoutStar r')
+  | none => none
+
+/-! ### the keywords of a conditional -/
+
+/-- `"if" ~ WHITESPACE+` -/
+def ifHead (cs : List Char) : Option (List Char) :=
+  match lit ['i', 'f'] cs with
+  | some r => wsPlus r
+  | none => none
+
+/-- `(WHITESPACE | NEWLINE)+ ~ kw ~ (WHITESPACE | NEWLINE)+` for `kw` = `then` / `else` -/
+def kwGap (kw : List Char) (cs : List Char) : Option (List Char) :=
+  match layoutPlus cs with
+  | some r =>
+    (match lit kw r with
+     | some r' => layoutPlus r'
+     | none => none)
+  | none => none
+
+def thenLit : List Char := ['t', 'h', 'e', 'n']
+def elseLit : List Char := ['e', 'l', 's', 'e']
+
 /-! ### expression -/
 
 mutual
-/-- `expression` : items and rest -/
-def exprR : Nat → List Char → Res (List PItem × List Char)
+/-- `expression` (`lam = false`) / `lambda_expression` (`lam = true`) : items and rest -/
+def exprR (lam : Bool) : Nat → List Char → Res (List PItem × List Char)
   | 0, _ => .out
   | fuel + 1, cs =>
-    match operandR fuel cs with
+    match operandR lam fuel cs with
     | .ok (its, r) =>
-      (match tailR fuel r with
+      (match tailR lam fuel r with
        | .ok (more, r') => .ok (its ++ more, r')
        | .fail => .fail
        | .out => .out)
@@ -224,55 +417,239 @@ def exprR : Nat → List Char → Res (List PItem × List Char)
     | .out => .out
 /-- `(infix_usage ~ prefix_usage* ~ term ~ postfix_op*)*` : never fails; an iteration that
     fails after its `infix_usage` gives the operator back -/
-def tailR : Nat → List Char → Res (List PItem × List Char)
+def tailR (lam : Bool) : Nat → List Char → Res (List PItem × List Char)
   | 0, _ => .out
   | fuel + 1, cs =>
-    match infixUsage cs with
+    match infixUsage lam cs with
     | none => .ok ([], cs)
     | some (rule, r) =>
-      match operandR fuel r with
+      match operandR lam fuel r with
       | .ok (its, r') =>
-        (match tailR fuel r' with
+        (match tailR lam fuel r' with
          | .ok (more, r'') => .ok (.inf rule :: (its ++ more), r'')
          | .fail => .fail
          | .out => .out)
       | .fail => .ok ([], cs)
       | .out => .out
-/-- `prefix_usage* ~ term ~ postfix_op*` -/
-def operandR : Nat → List Char → Res (List PItem × List Char)
+/-- `prefix_usage* ~ term ~ postfix_op*` (`lambda_term` has the alternatives of `term`; the
+    flag is only passed on) -/
+def operandR (_lam : Bool) : Nat → List Char → Res (List PItem × List Char)
   | 0, _ => .out
   | fuel + 1, cs =>
-    let pre := prefixStar cs
-    match termAtom pre.2 with
-    | some (e, r1) =>
-      let post := postfixStar r1
-      .ok (pre.1 ++ .prim e :: post.1, post.2)
+    match termR fuel (prefixStar cs).2 with
+    | .ok (e, r1) =>
+      (match postR fuel r1 with
+       | .ok (post, r2) => .ok ((prefixStar cs).1 ++ .prim e :: post, r2)
+       | .fail => .fail
+       | .out => .out)
+    | .fail => .fail
+    | .out => .out
+/-- `term` (fragment): `conditional` first, then `lambda` — when one of them does not match,
+    the following alternatives are tried at the same position -/
+def termR : Nat → List Char → Res (Expr × List Char)
+  | 0, _ => .out
+  | fuel + 1, cs =>
+    match condR fuel cs with
+    | .ok x => .ok x
+    | .fail =>
+      (match lamR fuel cs with
+       | .ok x => .ok x
+       | .fail => term2R fuel cs
+       | .out => .out)
+    | .out => .out
+/-- `conditional = ${ "if" ~ WHITESPACE+ ~ expression ~ (WHITESPACE | NEWLINE)+ ~ "then" ~
+    (WHITESPACE | NEWLINE)+ ~ expression ~ (WHITESPACE | NEWLINE)+ ~ "else" ~ (WHITESPACE |
+    NEWLINE)+ ~ expression }` : the three parts are `expression`s (also inside a lambda body) -/
+def condR : Nat → List Char → Res (Expr × List Char)
+  | 0, _ => .out
+  | fuel + 1, cs =>
+    match ifHead cs with
+    | some r1 =>
+      (match exprR false fuel r1 with
+       | .ok (its1, r2) =>
+         (match kwGap thenLit r2 with
+          | some r3 =>
+            (match exprR false fuel r3 with
+             | .ok (its2, r4) =>
+               (match kwGap elseLit r4 with
+                | some r5 =>
+                  (match exprR false fuel r5 with
+                   | .ok (its3, r6) =>
+                     (match prattParse its1, prattParse its2, prattParse its3 with
+                      | some c, some t, some e => .ok (.cond c t e, r6)
+                      | _, _, _ => .fail)
+                   | .fail => .fail
+                   | .out => .out)
+                | none => .fail)
+             | .fail => .fail
+             | .out => .out)
+          | none => .fail)
+       | .fail => .fail
+       | .out => .out)
+    | none => .fail
+/-- `lambda` -/
+def lamR : Nat → List Char → Res (Expr × List Char)
+  | 0, _ => .out
+  | fuel + 1, cs =>
+    match lambdaHead cs with
+    | some (args, r) =>
+      (match exprR true fuel r with
+       | .ok (its, r') =>
+         (match prattParse its with
+          | some e => .ok (.lambda args e, r')
+          | none => .fail)
+       | .fail => .fail
+       | .out => .out)
+    | none => .fail
+/-- the alternatives of `term` behind `lambda`: `list`, the word / literal alternatives,
+    `nested_expression`, converted as `pairs_to_expr` does (a nested expression by the Pratt
+    parser on its items) -/
+def term2R : Nat → List Char → Res (Expr × List Char)
+  | 0, _ => .out
+  | fuel + 1, cs =>
+    match termAtom cs with
+    | some (e, r) => .ok (e, r)
     | none =>
-      -- nested_expression
-      match pre.2 with
+      match cs with
       | '(' :: r1 =>
-        (match exprR fuel (layoutStar r1) with
+        (match exprR false fuel (layoutStar r1) with
          | .ok (its, r2) =>
            (match layoutStar r2 with
             | ')' :: r3 =>
               (match prattParse its with
-               | some e =>
-                 let post := postfixStar r3
-                 .ok (pre.1 ++ .prim e :: post.1, post.2)
+               | some e => .ok (e, r3)
                | none => .fail)
             | _ => .fail)
          | .fail => .fail
          | .out => .out)
+      -- list = !{ "[]" | "[" ~ … ~ "]" } : the first alternative is subsumed by the second
+      | '[' :: r1 =>
+        (match argR true fuel (gapG r1) with
+         | .ok (a, r2) =>
+           (match argsTailR true fuel r2 with
+            | .ok (more, r3) =>
+              (match listClose r3 with
+               | some r4 => .ok (.list (mkItems (a :: more)), r4)
+               | none => .fail)
+            | .fail => .fail
+            | .out => .out)
+         | .fail =>
+           (match listClose (gapG r1) with
+            | some r4 => .ok (.list [], r4)
+            | none => .fail)
+         | .out => .out)
       | _ => .fail
+/-- `postfix_op*` : never fails -/
+def postR : Nat → List Char → Res (List PItem × List Char)
+  | 0, _ => .out
+  | fuel + 1, cs =>
+    match postOpR fuel cs with
+    | .ok (it, r) =>
+      (match postR fuel r with
+       | .ok (more, r') => .ok (it :: more, r')
+       | .fail => .fail
+       | .out => .out)
+    | .fail => .ok ([], cs)
+    | .out => .out
+/-- `postfix_op = _{ factorial | access | call_list | dot_access }` with the payload converted
+    as `fmtcommon.rs::pitems` does:
+      access     =  { "[" ~ NEWLINE* ~ expression ~ NEWLINE* ~ "]" }            (atomic here)
+      call_list  = !{ "(" ~ NEWLINE* ~ (spreadable_expression ~ ("," ~ NEWLINE* ~
+                       spreadable_expression)*)? ~ ("," ~ NEWLINE)? ~ NEWLINE* ~ ")" }
+      dot_access =  { "." ~ identifier }                                         (atomic here) -/
+def postOpR : Nat → List Char → Res (PItem × List Char)
+  | 0, _ => .out
+  | fuel + 1, cs =>
+    match firstRule postfixLits cs with
+    | some (_, r) => .ok (.postFact, r)
+    | none =>
+      match cs with
+      | '[' :: r1 =>
+        (match exprR false fuel (nlStar r1) with
+         | .ok (its, r2) =>
+           (match nlStar r2 with
+            | ']' :: r3 =>
+              (match prattParse its with
+               | some e => .ok (.postAccess e, r3)
+               | none => .fail)
+            | _ => .fail)
+         | .fail => .fail
+         | .out => .out)
+      | '(' :: r1 =>
+        (match argR false fuel (layoutStar r1) with
+         | .ok (a, r2) =>
+           (match argsTailR false fuel r2 with
+            | .ok (more, r3) =>
+              (match callClose r3 with
+               | some r4 => .ok (.postCall (a :: more), r4)
+               | none => .fail)
+            | .fail => .fail
+            | .out => .out)
+         | .fail =>
+           (match callClose (layoutStar r1) with
+            | some r4 => .ok (.postCall [], r4)
+            | none => .fail)
+         | .out => .out)
+      | '.' :: r1 =>
+        (match identifier r1 with
+         | some r2 => .ok (.postDot (String.ofList (consumed r1 r2)), r2)
+         | none => .fail)
+      | _ => .fail
+/-- `spreadable_expression = _{ spread_expression | expression }`,
+    `spread_expression = ${ spread_operator ~ expression }`, converted: `...e` is the prefix
+    `spread_operator` applied to the converted expression.  (When `...` is not followed by an
+    expression the second alternative is tried at the `...`, where no expression starts.)
+    With `lst` this is `list_item`: the blanks and the `eol_comment` behind the expression
+    belong to the item. -/
+def argR (lst : Bool) : Nat → List Char → Res (Expr × List Char)
+  | 0, _ => .out
+  | fuel + 1, cs =>
+    match lit spreadLit cs with
+    | some r1 =>
+      (match exprR false fuel r1 with
+       | .ok (its, r2) =>
+         (match prattParse its with
+          | some e => .ok (.spread e, if lst then itemTrail r2 else r2)
+          | none => .fail)
+       | .fail => .fail
+       | .out => .out)
+    | none =>
+      (match exprR false fuel cs with
+       | .ok (its, r2) =>
+         (match prattParse its with
+          | some e => .ok (e, if lst then itemTrail r2 else r2)
+          | none => .fail)
+       | .fail => .fail
+       | .out => .out)
+/-- `("," ~ NEWLINE* ~ spreadable_expression)*` of `call_list` (`lst = false`) and
+    `("," ~ (comment ~ (WHITESPACE | plain_newline)+ | WHITESPACE | plain_newline)* ~
+    list_item)*` of `list` (`lst = true`), both non-atomic: `skip` in front of every iteration
+    and after the comma; in front of an argument `skip ~ NEWLINE* ~ skip` = `(WHITESPACE |
+    NEWLINE)*`, in front of a list item `gapG`; never fails, an iteration that fails gives its
+    comma back -/
+def argsTailR (lst : Bool) : Nat → List Char → Res (List Expr × List Char)
+  | 0, _ => .out
+  | fuel + 1, cs =>
+    match skipWs cs with
+    | ',' :: r =>
+      (match argR lst fuel (if lst then gapG r else layoutStar r) with
+       | .ok (a, r1) =>
+         (match argsTailR lst fuel r1 with
+          | .ok (more, r2) => .ok (a :: more, r2)
+          | .fail => .fail
+          | .out => .out)
+       | .fail => .ok ([], cs)
+       | .out => .out)
+    | _ => .ok ([], cs)
 end
 
 /-- fuel that always suffices (`exprR_fuel_suffices`, `fuel_suffices` in Lemmas/ExprPegFuel.lean) -/
-def fuelFor (cs : List Char) : Nat := 2 * cs.length + 2
+def fuelFor (cs : List Char) : Nat := 8 * cs.length + 8
 
 /-- the `expression` rule at the start of `cs`: the item sequence and the unconsumed rest;
     `none` = no match (or fuel ran out) -/
 def exprItems (fuel : Nat) (cs : List Char) : Option (List PItem × List Char) :=
-  match exprR fuel cs with
+  match exprR false fuel cs with
   | .ok x => some x
   | _ => none
 
